@@ -84,7 +84,7 @@ def chain_info(stages, hold, polite, eb=False):
             while d < depth:
                 d <<= 1
             cap = cap + d + 4 + (0 if k in ("ff", "fz") else a // 100)
-            if not (k == "fz" or (k == "fe" and a // 100 == 0)):
+            if not (k == "fz" or (k in ("fe", "fm") and a // 100 == 0)):
                 held = True
         elif k == "st":
             held = held and bool(polite)
@@ -273,8 +273,8 @@ def gen_chain(rng, depth, allow_fifo=False, force=None, kinds=None, ebsafe=False
             elif k in ("ff", "fz"):
                 toks.append(f"{k}{rng.choice([2, 4, 8])}")
             elif k in ("fe", "fl", "fm"):
-                # every way of requesting a latency (FifoLatency::AtMost(0) is not generated: elaboration does not terminate)
-                nreq = rng.choice([0, 1, 1, 2, 3]) if k != "fm" else rng.choice([1, 1, 1, 2, 3])
+                # every way of requesting a latency (AtMost(0) = fall-through since 19458b4; before, its elaboration never returned)
+                nreq = rng.choice([0, 1, 1, 2, 3])
                 toks.append(f"{k}{nreq * 100 + rng.randrange(1, 17)}")
             else:
                 toks.append(k)
@@ -590,11 +590,11 @@ def gen_sig_cases(seed, tiername, tag, count, n):
 
 def gen_fifolat_cases(seed, tiername, tag, count, n):
     """strm::fifo under every way of REQUESTING a latency the API offers -- FifoLatency(n) exact n = 0..3, DontCare, AtLeast(n),
-    AtMost(n) (AtMost(0) excluded: elaboration does not terminate) -- x minDepth 1..16 x light-load schedules (push while the
+    AtMost(n) incl. AtMost(0) (= fall-through) -- x minDepth 1..16 x light-load schedules (push while the
     fifo is empty / draining, consumer stalls), alone and between register stages.  The stage specification does not depend on
     the request; only the latency bound does (checked for single-stage chains)."""
     rng = random.Random(f"C16/{seed}/{tiername}/{tag}")
-    reqs = [("ff", None), ("fe", 0), ("fe", 1), ("fe", 2), ("fe", 3), ("fl", 0), ("fl", 1), ("fl", 2), ("fl", 3), ("fm", 1), ("fm", 2), ("fm", 3)]
+    reqs = [("ff", None), ("fe", 0), ("fe", 1), ("fe", 2), ("fe", 3), ("fl", 0), ("fl", 1), ("fl", 2), ("fl", 3), ("fm", 0), ("fm", 1), ("fm", 2), ("fm", 3)]
     cases = []; i = 0
     def tok(k, nreq, d):
         return f"ff{d}" if k == "ff" else f"{k}{nreq * 100 + d}"
@@ -937,11 +937,53 @@ def oracle_case(params, evlines):
 
 
 # ----------------------------------------------------------------------------- running
+CASE_TIMEOUT = 20          # seconds of wall clock one case may take in the harness (elaboration + 200..360 simulated cycles take ~10 ms)
+hang_cases = []            # cases that did not finish within the limit (reported as VIOLATION)
+
+
+def _limit_memory():
+    import resource
+    resource.setrlimit(resource.RLIMIT_AS, (12 << 30, 12 << 30))
+
+
 def run_cases(exe, drv, cases, tag):
+    """Runs the harness over the cases in a child process.  A case that does not finish within CASE_TIMEOUT seconds (e.g. a stage
+    whose elaboration does not terminate) ends the child (SIGALRM / memory limit); it is recorded in hang_cases and the batch
+    is continued behind it."""
+    import subprocess, signal
     cf = WORK / f"cases_{tag}.txt"; impl = WORK / f"impl_{tag}.txt"; model = WORK / f"model_{tag}.txt"
+    part = WORK / f"impl_{tag}.part.txt"
+    remaining = list(cases)
     write_cases(cf, cases)
-    rc, out = V.run([exe, "run", str(cf), str(impl)], timeout=3000)
-    if rc != 0:
+    open(impl, "w").close()
+    hangs_here = 0
+    while True:
+        pc = WORK / f"cases_{tag}.part.txt"
+        write_cases(pc, remaining)
+        try:
+            pr = subprocess.run([exe, "run", str(pc), str(part)], capture_output=True, text=True, timeout=600 + len(remaining),
+                                env=dict(os.environ, C16_CASE_TIMEOUT=str(CASE_TIMEOUT)), preexec_fn=_limit_memory)
+            rc, out = pr.returncode, pr.stdout + pr.stderr
+        except subprocess.TimeoutExpired:
+            rc, out = -signal.SIGALRM, "[batch timeout]"
+        done = []
+        if os.path.exists(part):
+            txt = open(part).read()
+            with open(impl, "a") as f:
+                f.write(txt)
+            done = [l.split()[1] for l in txt.splitlines() if l[:2] in ("C ", "X ")]
+        if rc == 0:
+            break
+        ids = [c["header"].split()[1] for c in remaining]
+        k = len(done)
+        if k < len(remaining) and ids[:k] == done:
+            # the first case without output is the one that did not finish
+            hang_cases.append(dict(case=remaining[k], rc=rc, batch=tag, stderr=out[-300:]))
+            hangs_here += 1
+            remaining = remaining[k + 1:]
+            if hangs_here >= 2 or not remaining:
+                break
+            continue
         return dict(error=f"harness rc={rc}: {out[-800:]}")
     res = dict(impl=str(impl), model=None, cases=str(cf))
     if drv:
@@ -1046,7 +1088,9 @@ def main():
         src = rp.get("replay_case")
         if src:
             r = run_cases(exe, drv, [src], "replay")
-            if "error" in r and "impl" not in r:
+            if hang_cases:
+                still.append(f"does not terminate within {CASE_TIMEOUT} s")
+            elif "error" in r and "impl" not in r:
                 still.append(r["error"])
             else:
                 agg = new_agg(); mm, ov, xl, sm = [], [], [], []
@@ -1140,6 +1184,12 @@ def main():
                 rep.known(kf); return
         rep.violation(obj, nofail=nofail, tag=tag)
 
+    if hang_cases:
+        h = hang_cases[0]
+        emit(dict(property=CID, kind="does-not-terminate", case=h["case"]["header"], what=f"the chain does not elaborate / simulate within {CASE_TIMEOUT} s of wall clock "
+                  f"(harness child ended with rc={h['rc']}; a normal case takes about 10 ms): a stage of the chain never returns",
+                  n_such_cases=len(hang_cases), other_cases=[x["case"]["header"] for x in hang_cases[1:5]],
+                  replay_case=dict(header=h["case"]["header"], plan=h["case"]["plan"][:40]), how_to_replay="checks/C16.py --replay <this file>"), tag="hang")
     if oracle_viol:
         v = oracle_viol[0]
         src = shrink_plan(v.get("src"), v.get("event"))
@@ -1212,7 +1262,7 @@ def main():
         "packet family: the producer sends whole packets (prod=seq) with idle slots directly in front of the last beat of a packet / in front of one-beat packets / everywhere / nowhere while the consumer is always or mostly ready; emptyBits values are digit aligned (multiples of w)",
         "other stream signatures (harness sig=rs|v|s): RsPacketStream (Ready, Sop, Eop, no Valid), VPacketStream (no Ready), SPacketStream (Sop, Eop). For rs / s the observation interface is the library's derived accessor valid(out) (pinned out) plus the raw sop/eop of the output; the oracle decides independently from the framing whether a beat is on offer (from sop until its eop is transferred) and requires the accessor to agree in every cycle, sop to sit on exactly the first beat of each packet, and the usual transfer / hold / drain rules with the derived valid at the input. Model: StreamRs.v (rs_flags = the flag register, inpkt = the specification, rsCycles supplies the derived valid to the unchanged stage machines); output sop of the model run is the framing of its own output transfers",
         "stage kinds per signature are what the library accepts: regReady / regDecouple / strm::fifo / stall assign valid(...) and do not compile without a Valid signal; utils.h extendWidth turns an Rs stream into a different type (adds Valid); Packet.h widthExtend on a stream without Valid offers partial wide beats (sop is high while the group is still incomplete) -- not generated; after Packet.h widthReduce the sop signal has lost its reset value, so later register stages power up with undefined sop and the derived valid is X until the first packet has ended (seen with pr2,rd,dl3) -- pr is only generated as the last stage of an rs chain; Sop as an additional meta signal of Valid-carrying streams is not exercised",
-        "strm::fifo is exercised under every way of requesting a latency: FifoLatency(n) exact n=0..3, DontCare, AtLeast(0..3), AtMost(1..3), minDepth 1..16, light-load schedules, alone and between register stages (also on ByteEnable streams); for single-stage chains the measured write-to-read latency of beats pushed into the empty fifo is checked against the request (exact ==, AtLeast >=, AtMost <=). Not generated: FifoLatency::AtMost(0) -- strm::fifo(in, d, AtMost(0)) does not terminate on the real code (elaboration hangs with growing memory; reported); dual-clock FIFOs are not reachable through the single-clock strm::fifo(stream, depth, latency) overload used here (C15 covers scl::Fifo dual clock)",
+        "strm::fifo is exercised under every way of requesting a latency: FifoLatency(n) exact n=0..3, DontCare, AtLeast(0..3), AtMost(0..3), minDepth 1..16, light-load schedules, alone and between register stages (also on ByteEnable streams); for single-stage chains the measured write-to-read latency of beats pushed into the empty fifo is checked against the request (exact ==, AtLeast >=, AtMost <=). AtMost(0) never finished elaborating before 19458b4; every case now runs under a wall-clock limit in the harness child (C16_CASE_TIMEOUT) and a case that exceeds it is a VIOLATION 'does-not-terminate' with the case as replay; dual-clock FIFOs are not reachable through the single-clock strm::fifo(stream, depth, latency) overload used here (C15 covers scl::Fifo dual clock)",
         "strm::fifo is a black box for the Coq part (C15 owns its machine); here it is covered by the list oracle and the hold rule only",
         "reference simulator semantics (registers, reset, clock edges) are taken as the meaning of the generated circuit (C01/C04 cover them); values are sampled before each rising edge",
         "liveness is proved for the register stages (regDownstream, regDownstreamBlocking, regReady, regDecouple, delay n) and checked by the drain phase of every generated case for all chains",
